@@ -112,6 +112,17 @@ func (c DefCtx) FirstOf(name string) (MREvent, bool) {
 	return MREvent{}, false
 }
 
+// SumOf: the sum of V over the rows classified as name in the match so far, the row under test included.
+func (c DefCtx) SumOf(name string) float64 {
+	t := 0.0
+	for i, l := range c.Labels {
+		if l == name {
+			t += c.Ev[c.Start+i].V
+		}
+	}
+	return t
+}
+
 func (c DefCtx) CountOf(name string) int {
 	n := 0
 	for _, l := range c.Labels {
